@@ -19,7 +19,8 @@ from vlib.sim import Sim
 PROPERTY = 'C04'
 RULE = ('streams = handshake-coalescing prefix or established session, then KEEPALIVE / marked UPDATE / '
         'body-malformed UPDATE / ROUTE-REFRESH, optionally one framing violation (marker, length, type, per-type length), trailer, '
-        'truncated tail; each delivered whole and under 1-cuts, 2-cuts, byte-wise and random cuts. Non-trivial = '
+        'truncated tail; each delivered whole and under 1-cuts, 2-cuts, byte-wise and random cuts; streams of 300 / 1100 / 3000 '
+        'messages delivered in one segment and in several. Non-trivial = '
         'a message boundary strictly inside a segment or a segment boundary strictly inside a message; '
         'distinct by (stream, segmentation).')
 ASSUMPTIONS = [
@@ -305,6 +306,9 @@ def shards(tier):
     reps = representative_streams()
     for j, items in enumerate(reps):
         out.append({'name': 'cuts-%d' % j, 'kind': 'cuts', 'items': items, 'two': tier == 'thorough'})
+    # very many messages in one segment (TCP delivers up to 64 KB per read)
+    for j, n in enumerate((300, 1100, 3000)):
+        out.append({'name': 'bulk-%d' % j, 'kind': 'bulk', 'n': n})
     # grids over the header fields
     if tier == 'quick':
         lens = [0, 1, 18, 19, 20, 22, 23, 29, 4096, 4097, 65535]
@@ -367,6 +371,19 @@ def run_shard(spec, seed, col, tier):
                      sample=({'mode': mode, 'items': items, 'cuts': case['cuts'][:3]} if i == 0 else None))
             for sig, detail in sigs:
                 col.fail(sig, {'mode': mode, 'items': items, 'cuts': case['cuts']}, detail)
+    elif kind == 'bulk':
+        n = spec['n']
+        for tail in ([['U', 7]], [['U', 7], ['XM', 15, 0xFE], ['U', 9]], [['XL', 18, 2, 3], ['K']]):
+            items = [['K']] * n + tail
+            stream = build(items)
+            L = len(stream)
+            cutsets = [[], [L // 2], list(range(1000, L, 1000)), list(range(19 * 7, L, 19 * 7)), [19 * 1024], [19 * 1024 + 5, L - 3]]
+            case = {'mode': 'est', 'items': items, 'cuts': cutsets}
+            sigs = check_case(case, col)
+            col.bulk(len(cutsets), len(cutsets), label='bulk-segments',
+                     sample={'mode': 'est', 'items': [['K'], '... x%d' % n] + tail, 'cuts': [[], [L // 2]]})
+            for sig, detail in sigs:
+                col.fail(sig, {'mode': 'est', 'items': items, 'cuts': cutsets}, detail[:600])
     elif kind == 'grid':
         for ln in spec['lens']:
             for ty in spec['types']:
